@@ -219,6 +219,8 @@ def exec_equiv(trace, ctx):
             ctx.violate(P, "default-output-name", f"unexpected output files {extra}")
     ctx.nontrivial = True
     ctx.op("equiv", f"{len(triples)}sp")
+    ctx.sig.append((tuple(trace["order"]), trace["outfile"], trace["scale_given"], len(world["instances"]),
+                    tuple(len(s["start"]["positions"]) for s in world["species"])))
 
 
 def exec_equiv_shipped(trace, ctx):
@@ -423,6 +425,7 @@ def exec_discover(trace, ctx):
         ctx.probe("explicit_plus_auto")
     ctx.nontrivial = True
     ctx.op("main_auto", f"{len(mapped_names)}mapped")
+    ctx.sig.append((tuple(sorted(trace["status"].items())), tuple(trace["exclude"]), tuple(sorted(trace["distractors"].items()))))
 
 
 def _short(m):
